@@ -253,15 +253,11 @@ void BatchLogRecordProcessor::Export()
     size_t num_records_to_export;
     std::uint64_t notify_force_flush =
         synchronization_data_->force_flush_pending_sequence.load(std::memory_order_acquire);
-    if (notify_force_flush)
-    {
-      num_records_to_export = buffer_.size();
-    }
-    else
-    {
-      num_records_to_export =
-          buffer_.size() >= max_export_batch_size_ ? max_export_batch_size_ : buffer_.size();
-    }
+    // Never hand more than max_export_batch_size_ records to the exporter at once. A pending
+    // ForceFlush is only notified once everything queued at this point has been exported.
+    const size_t num_records_queued = buffer_.size();
+    num_records_to_export =
+        num_records_queued >= max_export_batch_size_ ? max_export_batch_size_ : num_records_queued;
 
     if (num_records_to_export == 0)
     {
@@ -283,7 +279,10 @@ void BatchLogRecordProcessor::Export()
 
     exporter_->Export(
         nostd::span<std::unique_ptr<Recordable>>(records_arr.data(), records_arr.size()));
-    NotifyCompletion(notify_force_flush, exporter_, synchronization_data_);
+    if (num_records_to_export == num_records_queued)
+    {
+      NotifyCompletion(notify_force_flush, exporter_, synchronization_data_);
+    }
   } while (true);
 
 #ifdef ENABLE_THREAD_INSTRUMENTATION_PREVIEW
